@@ -20,8 +20,8 @@ ASSUMPTIONS = ["order is certified on the executed problem classes (genericity o
                "class tableaus are float64: exactness threshold 1e-10 relative (RK14(12) published coefficients are ~3e-13 accurate)"]
 STEPS = [1.0, -0.75, 1.5]
 TAU = {"float64": 1e-10, "longdouble": 1e-10, "float32": 3e-4}
-FLOORS = {"quick": {"exact_probes_accepted": 150, "embedded_probes": 9, "richardson_probes_accepted": 12, "slope_probes": 20},
-          "thorough": {"exact_probes_accepted": 900, "embedded_probes": 27, "richardson_probes_accepted": 200, "slope_probes": 60}}
+FLOORS = {"quick": {"exact_probes_accepted": 150, "embedded_probes": 9, "richardson_probes_accepted": 12, "slope_probes": 20, "global_order_probes": 15},
+          "thorough": {"exact_probes_accepted": 900, "embedded_probes": 27, "richardson_probes_accepted": 200, "slope_probes": 60, "global_order_probes": 45}}
 CASE_TIMEOUT = 900
 HARMONIC_ONLY = ("ABAs5o6HSolver", "BABs9o7HSolver")
 
@@ -74,6 +74,13 @@ def gen_cases(tier, seed):
             g = p if n == 2 else p + 1
             cases.append(dict(kind="richardson", method=b, levels=n, grade=g, dtype="float64", pseed=1000 * seed + n,
                               cost=(1 + (g / 4.0) ** 2 * (1 if M[b]["explicit"] else 6)) * (2 ** (n - 1))))
+    # "halving the step divides the global error by about 2^p": whole runs through OdeSystem with the fixed-step explicit methods,
+    # over spans of every sign pattern (away from the origin, towards it, across it) and both directions
+    gspans = [(0.0, 1.0), (1.0, 0.0), (-1.5, -0.5), (-0.5, -1.5), (-1.0, 0.5), (0.5, -1.0), (1.5, 0.5), (2.0, 3.0)]
+    gnames = [n for n in names if M[n]["explicit"] and not M[n]["adaptive"] and not M[n]["splitting"]]
+    for name in gnames:
+        for sp in ([gspans[int(i)] for i in rng.choice(len(gspans), size=3, replace=False)] if tier == "quick" else gspans):
+            cases.append(dict(kind="global", method=name, span=list(sp), pseed=1000 * seed + int(rng.integers(1000)), cost=4))
     return cases
 
 
@@ -147,6 +154,8 @@ def run_case(spec):
         return _run_slope(spec)
     if kind == "richardson_sequence":
         return _run_richardson_sequence(spec)
+    if kind == "global":
+        return _run_global(spec)
     raise ValueError(kind)
 
 
@@ -387,6 +396,44 @@ def _run_slope(spec):
             mech = "splitting_local_order_4"
         rec.violate("declared_order_slope", mech, {"method": spec["method"], "family": info["family"], "declared": p, "sign": sgn},
                     slope=slope, errors=errs, hs=hs)
+    return rec.out()
+
+
+def _run_global(spec):
+    """global error of a fixed-step run with N, 2N and 4N steps: the best observed ratio log2(e_N/e_2N) must reach p - 0.6."""
+    import desolver as de
+    M = util.methods()
+    info = M[spec["method"]]
+    p = info["order"]
+    t0, tf = spec["span"]
+    d = 1 if tf > t0 else -1
+    prob = Manufactured(2, spec["pseed"], direction=d)
+    rec = util.Rec(sig="global|%s|%s|%d" % (spec["method"], spec["span"], spec["pseed"] % 7))
+    feats = {"method": spec["method"], "family": info["family"], "declared": p, "span_class": "%s%s%s" % ("-" if t0 < 0 else "+", "-" if tf < 0 else "+", "toward0" if abs(tf) < abs(t0) else "away")}
+    n0 = {1: 64, 2: 24, 3: 16, 4: 10, 5: 8}.get(p, 8)
+    errs, rows = [], []
+    for n in (n0, 2 * n0, 4 * n0):
+        a = de.OdeSystem(prob.rhs, y0=prob.ystar(t0).astype(np.float64), dense_output=False, t=(t0, tf), dt=abs(tf - t0) / n)
+        a.method = info["cls"]
+        a.integrate()
+        t = np.asarray(a.t)
+        rows.append(len(t))
+        errs.append(float(np.max(np.abs(np.asarray(a.y[-1], dtype=np.longdouble) - prob.ystar(float(t[-1]))))) if abs(float(t[-1]) - tf) < 1e-9 else float("nan"))
+    rec.bump("global_order_runs", 3)
+    rec.nontrivial = True
+    rec.sample = {"spec": spec, "errors": errs, "rows": rows}
+    if not all(np.isfinite(errs)):
+        rec.violate("global_order", "run_did_not_end_at_target", feats, errors=errs, rows=rows)
+        return rec.out()
+    usable = [(errs[i], errs[i + 1]) for i in range(2) if errs[i + 1] > 1e-13]
+    if not usable:
+        rec.bump("global_at_floor")
+        return rec.out()
+    rate = max(float(np.log2(a_ / b_)) for a_, b_ in usable)
+    rec.bump("global_order_probes")
+    rec.worst("global_order_deficit", p - rate)
+    if rate < p - 0.6:
+        rec.violate("global_order", "halving_the_step_does_not_divide_the_global_error_by_2_to_the_p", feats, rate=rate, errors=errs, rows=rows)
     return rec.out()
 
 
